@@ -97,7 +97,8 @@ func regionAttrs(p int) *astisub.StyleAttributes {
 
 func (ls ListSpec) Build() *astisub.Subtitles {
 	s := astisub.NewSubtitles()
-	s.Metadata = &astisub.Metadata{Framerate: 25, STLDisplayStandardCode: "0", Title: "t", Language: astisub.LanguageFrench, SSAScriptType: "v4.00"}
+	s.Metadata = &astisub.Metadata{Framerate: 25, STLDisplayStandardCode: "0", Title: "t", Language: astisub.LanguageFrench, SSAScriptType: "v4.00",
+		Comments: []string{"first\nsecond", " third "}} // comments a writer may want to split or trim: not in place
 	if ls.Dates {
 		d := time.Date(2021, 3, 4, 0, 0, 0, 0, time.UTC)
 		e := time.Date(2022, 5, 6, 0, 0, 0, 0, time.UTC)
